@@ -3,9 +3,12 @@ C43 model, part 1: `pkg/parse/quote.go` — `QuoteAs` / `quoteAs`, `quoteSingle`
 `quoteDouble`, `rtohex` — over byte strings with Go's `range`-over-string
 semantics (invalid bytes decode to U+FFFD, width 1).
 
-The same functions are modelled by C03 (built concurrently); this copy lives
-here because C03 was not available when C43 was built.  Character classes and
-the escape table are the regenerated `Generated/C01Chars.lean`.
+The same functions are modelled by C03 (`ElvModel/C03/Model.lean`, with Go's
+partial operations explicit).  The two are ONE model: every function here is
+proved equal to its C03 counterpart (`C43_quote_is_C03`, helpers in
+`ElvProofs/C43/QuoteC03.lean`); this outcome-free form is what the completion
+model and the driver evaluate.  Character classes and the escape table are the
+regenerated `Generated/C01Chars.lean`.
 -/
 import ElvModel.Go.Utf8
 import ElvModel.Generated.C01Chars
